@@ -19,11 +19,11 @@ namespace PsbtOps
 def b (s : String) : Bytes := s.toUTF8.toList
 def str (bs : Bytes) : String := String.ofList (bs.map fun x => Char.ofNat x.toNat)
 
-def nKeys : Nat := 10
+def nKeys : Nat := 12
 def nHashes : Nat := 16
 def nLeaves : Nat := 16
 
-inductive Kind | pk | pkh | wpkh | shwpkh | wsh | shwsh | sh | tr
+inductive Kind | pk | pkh | wpkh | shwpkh | wsh | shwsh | sh | tr | bare
   deriving DecidableEq
 
 structure InSetup where
@@ -37,7 +37,7 @@ structure InSetup where
 
 def parseKind : String → Option Kind
   | "pk" => some .pk | "pkh" => some .pkh | "wpkh" => some .wpkh | "shwpkh" => some .shwpkh
-  | "wsh" => some .wsh | "shwsh" => some .shwsh | "sh" => some .sh | "tr" => some .tr | _ => none
+  | "wsh" => some .wsh | "shwsh" => some .shwsh | "sh" => some .sh | "tr" => some .tr | "bare" => some .bare | _ => none
 
 def natList (s : String) (sep : String) : List Nat :=
   if s == "-" || s == "_" then [] else (s.splitOn sep).filterMap String.toNat?
@@ -66,9 +66,10 @@ def spkOf (i : Nat) (s : InSetup) : Scr :=
   | .shwsh => wrap "p2sh" (wrap "p2wsh" (ws i))
   | .sh => wrap "p2sh" (rs i)
   | .tr => b s!"p2tr({i})"
+  | .bare => b s!"bare{i}"
 
 def segwitKind : Kind → Bool
-  | .pk | .pkh | .sh => false
+  | .pk | .pkh | .sh | .bare => false
   | _ => true
 
 def kindOfScr (s : Scr) : SpkKind :=
@@ -146,13 +147,15 @@ def mkParams (o : OracleT) (setup : List InSetup) : Params where
   p2pkKey s := (((str s).drop 5).dropEnd 1).toString.toNat?
   isP2pkhOf s k := s == keyScr "p2pkh" k
   isP2wpkhOf s k := s == keyScr "p2wpkh" k
-  decodes _ s := !(setup.zipIdx.any fun (st, i) => !st.dec && (s == ws i || s == rs i))
+  decodes _ s := !(setup.zipIdx.any fun (st, i) => !st.dec && (s == ws i || s == rs i || s == spkOf i st))
   allKeys := List.range nKeys
   satisfy _ p i mall := satLookup o setup p i mall
   tapScriptWitness p i mall := (satLookup o setup p i mall).map (·.1)
   sigBytes i sig := b ((o.lookup s!"K{i}.{if sig == 0 then "g" else "b"}").getD "?")
   interp _ i _ _ wit ss := o.lookup s!"I{i}.{ssTok ss}/{witTok wit}" == some "ok"
-  sanityInput _ := true
+  -- `sanity_check`: the input's sighash_type field (SINGLE when set by the `h` op) against the
+  -- sighash byte of every partial signature (ALL for every signature of the histories)
+  sanityInput inp := inp.sighashType.isNone || !((List.range nKeys).any fun k => (inp.partialSigs k).isSome)
 
 def showInputErr : InputErr → String
   | .keyErr => "KeyErr" | .couldNotSatisfyTr => "CouldNotSatisfyTr" | .interpreter => "Interpreter"
@@ -231,8 +234,15 @@ def stepOp (P : Params) (setup : List InSetup) (o : OracleT) (p : Psbt) (tok : S
     match s.kind with
     | .wsh | .shwsh => pure (modify p i fun inp => { inp with witnessScript := some bad }, "ok")
     | .sh | .shwpkh => pure (modify p i fun inp => { inp with redeemScript := some bad }, "ok")
+    | .bare =>
+      if i % 2 == 0 then pure (modify p i fun inp => { inp with witnessScript := some bad }, "ok")
+      else pure (modify p i fun inp => { inp with redeemScript := some bad }, "ok")
     | _ => pure (p, "ok")
   | 'd' => pure (modify p i fun inp => { inp with witnessUtxo := none, nonWitnessUtxo := none }, "ok")
+  | 'h' =>
+    pure (modify p i fun inp => { inp with sighashType := if inp.sighashType.isSome then none else some 3 }, "ok")
+  | 'o' =>
+    pure (modify p i fun inp => { inp with bip32 := fun _ => none, tapKeyOrigins := fun _ => none }, "ok")
   | 'v' =>
     pure (modify p i fun inp => { inp with witnessUtxo := none, nonWitnessUtxo := some ⟨100 + i, []⟩ }, "ok")
   | 'r' =>
@@ -285,7 +295,8 @@ end PsbtOps
 def harnessJudges : List String :=
   ["idempotent", "final-untouched", "atomic", "order-independent", "update-consistent",
    "update-mismatch-refused", "update-output-consistent", "sighash-agrees", "mall-honoured",
-   "extract-same-tx", "mode-honoured"]
+   "extract-same-tx", "mode-honoured", "sighash-type-finalizes", "sighash-type-extracts",
+   "sighash-mismatch-refused", "rawpkh-finalizes"]
 
 def opsPsbt (kind op : String) (args : List String) : Option String :=
   match kind, op, args with
